@@ -125,7 +125,7 @@ def _mk_unique(routine, attr, fn, n):
     return _u
 
 
-for _n in (1, 2, 3, 4):
+for _n in (1, 2, 3, 4, 5):          # n = 5: thorough tier only
     _mk_unique("make_export_names_routine", "_export_name", "make_export_name", _n)
     _mk_unique("make_safe_names_routine", "_safe_name", "make_safe_name", _n)
 
